@@ -157,6 +157,14 @@ CLAIMS = {
              'with immediate consumption must give identical per-client deliveries and callback invocations; delayed '
              'consumption is checked for at-most-once. The plan is the symbolic input (solver-enumerated).',
         ref='5 C07', technique='solver-driven enumeration (CrossHair+z3) of cluster histories; differential vs a real single server'),
+    'C14': dict(
+        text='Differential check of every threaded class against its asyncio twin on solver-enumerated scripts: all '
+             'triples of 25 server operations (valid and malformed client packets, API calls, raising callbacks, '
+             'duplicate ACKs, transport loss, class-based namespaces), all triples of 20 client operations, all pairs of 9 '
+             'pub/sub message kinds x 4 encodings x 4 variants through both listeners, all triples of 8 simple-client '
+             'operations; packets per peer in order, handler/callback invocations, API results or exception types, '
+             'contained exceptions, published messages and final state must be identical.',
+        ref='5 C14', technique='solver-driven script enumeration (CrossHair+z3); differential threaded vs asyncio on the real classes'),
 }
 
 PENDING = 'check not built yet in this tree (work in progress); no claim is made'
